@@ -166,10 +166,9 @@ class MergeConsecutiveOp(BaseOp):
 
         """
         remove_df = pd.DataFrame(remove_groups, columns=["remove"])
-        max_groups = max(remove_groups)
-        for index in range(max_groups):
+        for group in sorted(set(remove_groups) - {0}):
             df_group = df_new.loc[remove_df["remove"]
-                                  == index + 1, ["onset", "duration"]]
+                                  == group, ["onset", "duration"]]
             max_group = df_group.sum(axis=1, skipna=True).max()
             anchor = df_group.index[0] - 1
             max_anchor = df_new.loc[anchor, [
